@@ -302,6 +302,8 @@ def native_end_to_end(seed=0):
                 shown = names if names is not None else [f"X[:, {j}]" for j in range(d)]
                 n2f = {nm: j for j, nm in enumerate(shown)}
                 Q_ = np.vstack([X, X[rs.permutation(len(X))[:40]] + rs.normal(scale=2.0, size=(40, d))])
+                if tag == "plain blobs":      # one large query set: predict must agree with the printed rules row by row, whatever the batch size
+                    Q_ = np.vstack([Q_, X[rs.randint(0, len(X), size=1400)] + rs.normal(scale=1.5, size=(1400, d))])
                 want = m.predict(Q_)
                 for x, w in zip(Q_, want):
                     node = pt.root
